@@ -209,6 +209,7 @@ theorem conversion_eq (w : Bool) (st : St) (s : List Char) (d : Directive) (hs :
     simp only [PyKit.forEach, ite_ok, Py.warn]
     generalize (if (flags.contains '+' && flags.contains ' ') = true then _ else _) = st2
     simp only [lookup_chain, doWidth, doPrec, lateWarnings, cpercent]
+    clear hfl hs
     -- the class of the conversion character
     by_cases hA : intCvt.contains conv = true
     · by_cases hu : conv = 'u'
